@@ -139,6 +139,24 @@ pub fn check_triple(t: &Triple, acc: Option<&mut Acc>) -> Vec<String> {
         }
         acc.count("c09:end_to_end");
     }
+    // whatever prefix an update manages to configure, strangers stay locked out
+    for weird in ["", " ", "\u{00e9}", "OSMO", "1", "a1", "p".repeat(83).as_str()] {
+        let mut w = sc.w.clone();
+        let upd = json!({"update_config": {"protocol_chain_config": {"account_address_prefix": weird, "ibc_token_denom": sc.s, "ibc_channel_id": t.channel, "minimum_liquid_stake_amount": "1", "oracle_address": null}}});
+        let r = w.exec(&sc.admin, &sc.q, &upd.to_string(), &[]);
+        acc.seen("C09", &format!("weird-prefix|{}|{}", weird.len().min(9), r.ok));
+        if r.ok {
+            acc.count("c09:weird_prefix_accepted");
+            for (msg, stranger) in [(json!({"receive_rewards": {}}), sc.users[1].clone()), (json!({"receive_unstaked_tokens": {"batch_id": 1}}), sc.users[2].clone()), (json!({"receive_rewards": {}}), sc.collector.clone()), (json!({"receive_unstaked_tokens": {"batch_id": 1}}), hook_sender(&t.channel, &sc.collector, &t.prefix))] {
+                let mut w2 = w.clone();
+                w2.mint_raw(&stranger, &s, 100);
+                let r2 = w2.exec(&stranger, &sc.q, &msg.to_string(), &[(s.clone(), 100)]);
+                if r2.ok {
+                    out.push(format!("after configuring the protocol prefix {weird:?}, {msg} from the unrelated account {stranger} was accepted"));
+                }
+            }
+        }
+    }
     // the accepted account follows configuration updates (collector, channel)
     {
         let newcoll = addr20(&cfg.native_prefix, "collector-new");
